@@ -691,6 +691,7 @@ pub fn run_c07(tier: Tier) -> i32 {
         c
     };
     let mut seeds = liq_seeds();
+    seeds.push(seed_same_block_cascade());
     seeds.push(seed_vault_drained());
     seeds.push(vec![Act::blk(15), Act::open("alice", true, SIZE_L.0, SIZE_L.1), Act::open("bob", true, SIZE_L.0, SIZE_L.1)]);
     let alpha = liq_alpha(false);
@@ -969,7 +970,7 @@ pub fn run_c16(tier: Tier) -> i32 {
     al.blocks = vec![15];
     let alpha = al.acts();
     let init = json!({"h": 0, "u": [], "lq": false, "lt": []});
-    let seeds = vec![with_funding_due(seed_liquidatable()), with_funding_due(seed_liquidatable_mirror()), vec![
+    let seeds = vec![with_funding_due(seed_liquidatable()), with_funding_due(seed_liquidatable_mirror()), seed_same_block_cascade(), vec![
         Act::open("alice", true, 25 * D, 10 * D),
         Act::open("carol", true, 25 * D, 10 * D),
         Act::blk(15),
